@@ -9,7 +9,7 @@ META = {
             "class and checks the design invariants; every source is built with compact.BuildInMemory (1 and 3 goroutines) "
             "and loaded with NewWorldFromData in a child process (a crash is an observation) and lookup by ID, tags, "
             "point locations, path point sequences, area polygons, relation members and EachFeature must equal the spec's.",
-    "note": "Small scope: 9 IDs in one namespace, string tag values, reference geometry. Collections are not part of the "
+    "note": "Small scope: 9-10 IDs, two namespaces and mixed reference/location geometry in scenario 4 only, string tag values. Collections are not part of the "
             "compact format and are left out. Byte-level codec fidelity for every record kind and value class is C11's; "
             "64-bit ID packing is C10's. Trusted: TLC, harness/obs, vh-world.",
     "technique": "TLA+ spec (StaticWorld) enumerated by TLC; every case built as a compact index and observed",
@@ -22,6 +22,11 @@ def run(ctx):
     sworld.run_static(
         ctx, "C01", 3,
         variants=[{"impl": "compact", "cores": 1, "order": "rev", "max": (36, 200)}, {"impl": "compact", "cores": 2, "max": (8, 100)}],
+        sections=["lookup", "each", "problems", "build", "observe"], rule="", finish=False)
+    # mixed geometry (references next to raw locations), references from two namespaces in every order
+    sworld.run_static(
+        ctx, "C01", 4,
+        variants=[{"impl": "compact", "cores": 1, "max": (40, 600)}, {"impl": "compact", "cores": 3, "max": (8, 200)}],
         sections=["lookup", "each", "problems", "build", "observe"], rule="", finish=False)
     return sworld.run_static(
         ctx, "C01", 1,
